@@ -190,7 +190,7 @@ class C01(Plugin):
         return {"cfg": cfg, "reqs": reqs}
 
     def generate(self, tier, rng):
-        n = 70 if tier == "quick" else 1500
+        n = 200 if tier == "quick" else 5000
         cases = [self.gen_case(rng, tier) for _ in range(n)]
         # directed: sequential reuse of one HTTP/1 connection with Host/User-Agent overrides and HTTP/1.0 requests
         for buf in (1, 64, 8192):
@@ -437,18 +437,22 @@ class C01(Plugin):
 
     def known_match(self, finding, c, o):
         """D4 residue: with continue_after_preemption = false a request waiting on another request's in-flight HTTP/2 connection
-        attempt fails as unavailable when that other request is cancelled.  Exactly that shape, nothing else."""
+        attempt fails as unavailable when that other request is cancelled or pre-empted.  Exactly that shape, nothing else."""
         if finding.get("id") != "D4-e2e" or "bad" in o:
             return False
-        if c["cfg"]["pool"] != "nopre" or not any(r["out"] == "CANCELLED" for r in o["reqs"]):
+        if c["cfg"]["pool"] != "nopre":
             return False
         bad = [r for r in o["reqs"] if r["out"] not in ("OK", "CANCELLED")]
         if not bad:
             return False
         spec = {r["id"]: r for r in c["reqs"]}
-        cancelled_origins = {spec[r["id"]]["origin"] for r in o["reqs"] if r["out"] == "CANCELLED"}
+        # the owner of the multiplexed attempt asked for HTTP/2 and was either cancelled or pre-empted by a returned
+        # HTTP/1.1 connection (then it was served over HTTP/1.1 although it asked for HTTP/2)
+        owners = {spec[r["id"]]["origin"] for r in o["reqs"] if spec[r["id"]]["ver"] == "2" and
+                  (r["out"] == "CANCELLED" or (r["saw"] and r["saw"][0]["echo"] and r["saw"][0]["echo"]["ver"] == "11"))}
         for r in bad:
-            if r["out"] != "ERR" or "navailable" not in r.get("err", "") or r["saw"] or spec[r["id"]]["origin"] not in cancelled_origins:
+            if (r["out"] != "ERR" or "pool closed, no connection can be made" not in r.get("err", "") or r["saw"]
+                    or spec[r["id"]]["origin"] not in owners):
                 return False
         # everything else in the case must be in order: rerun the monitor without the affected requests
         keep = [q for q in c["reqs"] if q["id"] not in {r["id"] for r in bad}]
